@@ -172,6 +172,27 @@ class Inter:
                                 t2 = ("call", path2, tuple(tr.operand(a) for a in term2.args), (cb.id, bb2))
                             out.append((t2, tr.guards_at(bb2), bb2))
                         continue
+                # `_0 = Ok(move _tmp)` / `Some(move _tmp)` where _tmp is the value of a `match` / `if` / `a && b` expression: one
+                # case per arm as well, under the arm's guards together with those of the returning block
+                if rv.kind == "agg" and len(rv.ops) == 1 and rv.ops[0].kind in ("move", "copy") and rv.ops[0].place.is_local() \
+                        and (rv.agg or {}).get("variant") in ("Ok", "Some"):
+                    src = rv.ops[0].place.local
+                    ds = [d for d in tr.defs.get(src, []) if d[1] in live]
+                    whole = tr.rvalue(rv, frozenset())
+                    if len(ds) >= 2 and all(d[0] in ("assign", "call") for d in ds) and not (1 <= src <= cb.arg_count) \
+                            and whole[0] == "agg" and len(whole[3]) == 1:
+                        here = tr.guards_at(bb)
+                        for kind2, bb2, idx2 in ds:
+                            if kind2 == "assign":
+                                t2 = tr.rvalue(cb.blocks[bb2].stmts[idx2].rv, frozenset())
+                            else:
+                                term2 = cb.blocks[bb2].term
+                                path2 = term2.func.fn["path"] if term2.func.kind == "fn" else ("indirect",)
+                                t2 = ("call", path2, tuple(tr.operand(a) for a in term2.args), (cb.id, bb2))
+                            gs2 = list(tr.guards_at(bb2))
+                            gs2 += [g for g in here if g not in gs2]
+                            out.append((whole[:3] + (((whole[3][0][0], t2),),), gs2, bb2))
+                        continue
                 t = tr.rvalue(rv, frozenset())
             elif kind == "call":
                 t = tr.local(0)
